@@ -242,19 +242,53 @@ def run(p, led, tier):
     # ---------------- R3 hash
     gh = p.find_method(genome, "get_hash")
 
-    def go_hash(o):
-        it, obj = mk(o, False, "none", genes=(("g1", "STRUCTURAL", "NORMAL"), ("g2", "REGULATORY", "HIGH")))
+    def hv(x):
+        return x.sym if isinstance(x, Unknown) else x
+
+    def go_hash(o, hist):
+        it, obj = mk(o, hist != "refused mutate", "none", genes=(("g1", "STRUCTURAL", "NORMAL"), ("g2", "REGULATORY", "HIGH")))
         it.field_reads = set()
-        it.call_fi(gh, [obj], {})
-        return {f for c, f in it.field_reads if c == "Genome"}
-    reads = set()
-    for _, r_ in explore(go_hash, max_paths=50):
-        reads |= r_
+        h1 = hv(it.call_fi(gh, [obj], {}))
+        first_reads = {f for c, f in it.field_reads if c == "Genome"}
+        changed = False
+        try:
+            if hist in ("authorised mutate", "refused mutate"):
+                before = genes_snap(obj)
+                it.call_fi(p.find_method(genome, "mutate"), [obj, "g1", Unknown("new_value")], {})
+                changed = genes_snap(obj) != before
+            elif hist == "expression change":
+                it.call_fi(p.find_method(genome, "silence_gene"), [obj, "g2"], {})
+            elif hist == "gene added":
+                before = genes_snap(obj)
+                it.call_fi(p.find_method(genome, "add_gene"), [obj, it.instantiate(gene, [], dict(name="g3", value=Unknown("value_g3"), gene_type=it.enum_member(gtype, "STRUCTURAL")))], {})
+                changed = genes_snap(obj) != before
+        except PyRaise:
+            pass
+        h2 = hv(it.call_fi(gh, [obj], {}))
+        # the same gene table in a genome that has no past
+        fresh = it.instantiate(genome, [], dict(genes=list(obj.fields[GENES].values()) if isinstance(obj.fields[GENES], dict) else list(obj.fields[GENES]), allow_mutations=False, on_mutation=None, silent=True))
+        h_ref = hv(it.call_fi(gh, [fresh], {}))
+        return dict(h1=h1, h2=h2, ref=h_ref, changed=changed, reads=first_reads)
+    probs3, n3, reads = [], 0, set()
+    for hist in ("asked twice", "authorised mutate", "refused mutate", "expression change", "gene added"):
+        try:
+            outs3 = [r for _, r in explore(lambda o, _h=hist: go_hash(o, _h), max_paths=100)]
+        except Imprecise as e:
+            raise AnchorError(f"Genome.get_hash could not be interpreted ({hist}): {e}")
+        for r in outs3:
+            n3 += 1
+            reads |= r["reads"]
+            if r["h2"] != r["ref"]:
+                probs3.append(f"{hist}: the hash afterwards differs from the hash of a fresh genome holding the same gene table (an answer remembered from before, or something other than the gene table, goes into it)")
+            if r["changed"] and r["h2"] == r["h1"]:
+                probs3.append(f"{hist}: the gene table changed but the hash did not")
+            if not r["changed"] and r["h2"] != r["h1"]:
+                probs3.append(f"{hist}: the hash changed although no stored value did")
     key = "Genome.get_hash ▸ inputs"
-    if reads == {GENES}:
-        led.ok("C20-R3", key, where(gh, gh.node), f"reads self.{GENES} only (instance fields read while the hash is computed, by interpretation)")
+    if probs3:
+        led.fail("C20-R3", key, where(gh, gh.node), sorted(set(probs3))[0], path=sorted(set(probs3))[:5])
     else:
-        led.fail("C20-R3", key, where(gh, gh.node), f"hash reads {sorted(reads)}: it changes (or fails to change) with something other than the gene table")
+        led.ok("C20-R3", key, where(gh, gh.node), f"{n3} path(s) over 5 histories: the hash equals that of a fresh genome with the same gene table, changes when a stored value changes and only then (fields read on a first call: {sorted(reads)})")
 
     # ---------------- R4 replicate
     rep = p.find_method(genome, "replicate")
@@ -263,7 +297,12 @@ def run(p, led, tier):
             def go_r(o):
                 it, obj = mk(o, allow, cb, genes=(("g1", "STRUCTURAL", "NORMAL"), ("g2", "CONDITIONAL", "LOW")), trace=("Genome.mutate",))
                 obj.fields["mutation_rate"] = 0.0
-                before = freeze({k: v for k, v in obj.fields.items()})
+
+                def observable(g_):
+                    # the genome's configuration and records: the discovered tables plus every public attribute (private
+                    # scratch fields such as a memo of the hash are not part of what "alters the parent" is about)
+                    return freeze({k: v for k, v in g_.fields.items() if k in (GENES, MLOG, EXPR) or not k.startswith("_")})
+                before = observable(obj)
                 try:
                     child = it.call_fi(rep, [obj, {"g1": Unknown("child_value")}, Unknown("inherit_expression")], {})
                 except PyRaise as e:
@@ -274,7 +313,7 @@ def run(p, led, tier):
                 pg, cg = obj.fields[GENES], child.fields[GENES]
                 diff = sorted(k for k in set(pg) | set(cg) if freeze(pg.get(k)) != freeze(cg.get(k)))
                 shared_table = cg is pg
-                parent_changed = freeze({k: v for k, v in obj.fields.items()}) != before
+                parent_changed = observable(obj) != before
                 # afterwards each genome is regulated on its own: nothing done to the child's expression may show in the
                 # parent, and the other way round (no state object shared between the two)
                 alias = []
@@ -284,12 +323,12 @@ def run(p, led, tier):
                             mm = p.find_method(genome, mname)
                             if mm is None:
                                 continue
-                            snap_other = freeze({k: v for k, v in other.fields.items()})
+                            snap_other = observable(other)
                             try:
                                 it.call_fi(mm, [target, gname], {})
                             except PyRaise:
                                 continue
-                            if freeze({k: v for k, v in other.fields.items()}) != snap_other:
+                            if observable(other) != snap_other:
                                 alias.append(f"{mname}({gname!r}) on the {who} changes the {'parent' if who == 'child' else 'child'}")
                 return dict(parent_changed=parent_changed, alias=alias, diff=diff, same=same_obj or shared_table,
                             approved=approved_on_path(it), mutate_calls=sum(1 for e in it.events if e == ("call", "Genome.mutate")))
